@@ -17,7 +17,7 @@ ASSUMPTIONS = [
     "markdown-it-py's token stream is the independent reading of both the original and the fixed text",
     "documents on which fix ends in an error are skipped (C07/C15), counted; unchanged files compare trivially (counted separately)",
 ]
-LIMIT = {"Z1": 15291, "Z3": 16000, "Z4": 8000, "Z7": 40000}
+LIMIT = {"Z1": 15291, "Z3": 16000, "Z4": 8000, "Z7": 40000, "Z11": 30000, "Z12": 40000}
 
 
 def universe_hash():
@@ -25,7 +25,7 @@ def universe_hash():
 
 
 def plan(tier, seed, complete=False):
-    items, zinfo = PL.plan_docs(tier, seed, complete, quick={"Z1": 1800, "Z3": 1200, "Z4": 600, "Z7": 2400}, z1_all=False, limit=LIMIT, zones=("Z1", "Z3", "Z4", "Z7"), force_b=True)
+    items, zinfo = PL.plan_docs(tier, seed, complete, quick={"Z1": 1800, "Z3": 1200, "Z4": 600, "Z7": 2400, "Z11": 900, "Z12": 1500}, z1_all=False, limit=LIMIT, zones=("Z1", "Z3", "Z4", "Z7", "Z11", "Z12"), force_b=True, check="C08")
     return {
         "items": items, "zones": zinfo, "exhaustive": False,
         "rule": "documents of the frozen universes x {default rules, one index-chosen fix-capable rule alone}; non-trivial/distinct = "
